@@ -369,7 +369,7 @@ impl Gen {
                     match self.rng.below(12) {
                         0 => push_char(&mut out, *self.rng.pick(WIDE)),
                         1 => out.push(self.rng.range(0x80, 0xff) as u8),
-                        2 => out.push(self.rng.range(1, 6) as u8),
+                        2 => out.push(*self.rng.pick(&[1u8, 2, 3, 4, 5, 6, 8, 9, 10, 10, 13, 11, 12, 14, 0x7f])),
                         _ => out.push(self.ascii()),
                     }
                 }
@@ -571,8 +571,29 @@ impl Gen {
         if self.rng.chance(1, 6) {
             // origin mode homes the cursor: set it, then move relatively inside
             out.extend_from_slice(b"\x1b[?6h");
-            if self.rng.chance(1, 2) {
-                out.extend_from_slice(format!("\x1b[{};{}H", self.rng.range(1, rows), self.rng.range(1, cols)).as_bytes());
+            match self.rng.below(6) {
+                0 | 1 => out.extend_from_slice(format!("\x1b[{};{}H", self.rng.range(1, rows), self.rng.range(1, cols)).as_bytes()),
+                2 | 3 => {
+                    // VPA is absolute even in origin mode: the one movement that leaves the region
+                    // with origin mode on
+                    let r = *self.rng.pick(&cands);
+                    out.extend_from_slice(format!("\x1b[{r}d").as_bytes());
+                    if self.rng.chance(1, 2) {
+                        out.extend_from_slice(format!("\x1b[{col}G").as_bytes());
+                    }
+                }
+                4 => {
+                    // a cursor saved in origin mode, the region changed, the cursor restored: origin
+                    // mode on and the cursor possibly outside the new region
+                    out.extend_from_slice(b"\x1b7");
+                    if rows >= 3 {
+                        let t2 = self.rng.range(1, rows - 1);
+                        let b2 = self.rng.range(t2 + 1, rows);
+                        out.extend_from_slice(format!("\x1b[{t2};{b2}r").as_bytes());
+                    }
+                    out.extend_from_slice(b"\x1b8");
+                }
+                _ => {}
             }
         }
         out
@@ -640,7 +661,119 @@ impl Gen {
         out
     }
 
+    /// syntactic stress on the LAST CSI sequence of `out` (if any): legal input that a terminal must
+    /// take in its stride — parameter lists around vte's 32-slot limit, colon sub-parameters, more
+    /// than two intermediates, leading zeros and over-long digit strings, C0 controls and DEL in the
+    /// middle of the sequence.  The sequence keeps its final byte and its own parameters in front.
+    pub fn mangle_csi(&mut self, out: &mut Vec<u8>) {
+        // locate `ESC [ … final`
+        let Some(st) = (0..out.len().saturating_sub(1)).rev().find(|&i| out[i] == 0x1b && out[i + 1] == b'[') else { return };
+        let mut j = st + 2;
+        while j < out.len() && !(0x40..=0x7e).contains(&out[j]) {
+            if out[j] < 0x20 || out[j] >= 0x7f {
+                return; // already irregular
+            }
+            j += 1;
+        }
+        if j >= out.len() {
+            return;
+        }
+        let fin = out[j];
+        if fin == b't' {
+            // a resize request: extra parameters would ask for screens of tens of thousands of lines,
+            // which the huge-screen template covers on purpose and the random histories cannot afford
+            return;
+        }
+        let tail: Vec<u8> = out[j + 1..].to_vec();
+        let mut body: Vec<u8> = out[st + 2..j].to_vec(); // private marker, params, intermediates
+        let ni = body.iter().rev().take_while(|b| (0x20..=0x2f).contains(*b)).count();
+        let ints: Vec<u8> = body.split_off(body.len() - ni);
+        let pool: &[u64] = match fin {
+            b'm' => &[1, 3, 4, 7, 22, 23, 24, 27, 31, 42, 39, 49, 0, 95, 104],
+            b'h' | b'l' => &[1, 25, 2004, 9, 1000, 1002, 1003, 1005, 1006, 6, 7, 12],
+            _ => &[0, 1, 2, 3],
+        };
+        let mut ints = ints;
+        match self.rng.below(9) {
+            0 | 1 => {
+                // pad to around the 32-slot limit
+                let have = body.iter().filter(|b| **b == b';' || **b == b':').count() as u64 + 1;
+                let want = *self.rng.pick(&[30u64, 31, 32, 33, 34, 40]);
+                for _ in have..want {
+                    body.push(if self.rng.chance(1, 10) { b':' } else { b';' });
+                    body.extend_from_slice(self.rng.pick(pool).to_string().as_bytes());
+                }
+            }
+            2 => {
+                // a colon sub-parameter glued to one of the parameters (or to an empty list)
+                let extra = format!(":{}", self.rng.pick(pool));
+                let cut = (0..body.len()).filter(|&i| body[i] == b';').collect::<Vec<_>>();
+                let at = if cut.is_empty() || self.rng.chance(1, 2) { body.len() } else { *self.rng.pick(&cut) };
+                for (k, b) in extra.bytes().enumerate() {
+                    body.insert(at + k, b);
+                }
+            }
+            3 => {
+                // one ';' becomes ':'
+                let cut = (0..body.len()).filter(|&i| body[i] == b';').collect::<Vec<_>>();
+                if !cut.is_empty() {
+                    let at = *self.rng.pick(&cut);
+                    body[at] = b':';
+                }
+            }
+            4 => {
+                // more intermediates (three make vte flag the sequence)
+                let n = self.rng.range(1, 3);
+                for _ in 0..n {
+                    ints.push(self.rng.range(0x20, 0x2f) as u8);
+                }
+            }
+            5 => {
+                // leading zeros / an over-long digit string in front of the first digit run
+                if let Some(at) = body.iter().position(u8::is_ascii_digit) {
+                    let z = if self.rng.chance(1, 2) { "00" } else { "0000000000000000000" };
+                    for (k, b) in z.bytes().enumerate() {
+                        body.insert(at + k, b);
+                    }
+                }
+            }
+            6 => {
+                // a C0 control or DEL in the middle of the sequence
+                let c = *self.rng.pick(&[0x0au8, 0x0d, 0x08, 0x07, 0x09, 0x7f, 0x0b, 0x00]);
+                let at = self.rng.range(0, body.len() as u64) as usize;
+                body.insert(at, c);
+            }
+            7 => {
+                // a leading empty parameter / a trailing empty parameter
+                if self.rng.chance(1, 2) {
+                    let at = usize::from(body.first().is_some_and(|b| (0x3c..=0x3f).contains(b)));
+                    body.insert(at, b';');
+                } else {
+                    body.push(b';');
+                }
+            }
+            _ => {
+                // a parameter beyond u16
+                body.push(b';');
+                body.extend_from_slice(self.rng.pick(&["65535", "65536", "99999", "4294967296"]).as_bytes());
+            }
+        }
+        out.truncate(st + 2);
+        out.extend_from_slice(&body);
+        out.extend_from_slice(&ints);
+        out.push(fin);
+        out.extend_from_slice(&tail);
+    }
+
     pub fn chunk(&mut self, k: Kind) -> Vec<u8> {
+        let mut out = self.chunk_plain(k);
+        if self.rng.chance(1, 9) {
+            self.mangle_csi(&mut out);
+        }
+        out
+    }
+
+    pub fn chunk_plain(&mut self, k: Kind) -> Vec<u8> {
         match k {
             Kind::Text => self.text(),
             Kind::TextMargin => self.text_margin(),
